@@ -7,6 +7,9 @@
  *   const ProtobufCMessageDescriptor *const all_msgs[];  const unsigned n_all_msgs;
  *   const ProtobufCEnumDescriptor    *const all_enums[]; const unsigned n_all_enums;
  *   const ProtobufCServiceDescriptor *const all_svcs[];  const unsigned n_all_svcs;
+ *   const DescDumpSvcTest all_svc_tests[];               const unsigned n_all_svc_tests;
+ *       { descriptor, function that exercises the generated stubs / init of that service and prints
+ *         the SS / SI / SX lines }
  *
  * Blocks are sorted by the descriptor's `name` (bytewise, NULL sorts as the empty string) with a
  * stable sort, so descriptors whose name is NULL (optimize_for = CODE_SIZE) keep registry order.
@@ -25,6 +28,12 @@ extern const ProtobufCEnumDescriptor *const all_enums[];
 extern const unsigned n_all_enums;
 extern const ProtobufCServiceDescriptor *const all_svcs[];
 extern const unsigned n_all_svcs;
+typedef struct {
+	const ProtobufCServiceDescriptor *desc;
+	void (*run)(void);
+} DescDumpSvcTest;
+extern const DescDumpSvcTest all_svc_tests[];
+extern const unsigned n_all_svc_tests;
 
 /* ---------------------------------------------------------------- printing helpers */
 
@@ -395,6 +404,180 @@ static void put_state(const char *prefix, const ProtobufCMessageDescriptor *d, c
 	putchar('\n');
 }
 
+
+/* length of the C string in the first n bytes of t */
+static size_t strlen_bounded(const char *t, size_t n)
+{
+	size_t i = 0;
+	while (i < n && t[i] != 0)
+		i++;
+	return i;
+}
+
+/* ---------------------------------------------------------------- lookups (ML MK EL EK SL) */
+
+/* Keys are derived from the descriptor itself, so that the model side can derive the same ones:
+ * names: for every existing name n (in array order): n, n+"x", n without its last character, n with
+ * its last character +1 and -1; then "" and "~"; duplicates dropped (first occurrence stays).
+ * numbers: for every existing number v (in array order): v, v+1, v-1; then 0, 1, -1, 2147483647,
+ * -2147483648, 536870911, 4294967295; computed in 64 bits, converted to the parameter type of the
+ * library function (unsigned for fields, int for enum values), duplicates dropped. */
+
+typedef struct {
+	char **v;
+	unsigned n, cap;
+} NameKeys;
+
+static void name_key_add(NameKeys *k, const char *s, size_t len)
+{
+	char *c = malloc(len + 1);
+	memcpy(c, s, len);
+	c[len] = 0;
+	for (unsigned i = 0; i < k->n; i++)
+		if (strcmp(k->v[i], c) == 0) {
+			free(c);
+			return;
+		}
+	if (k->n == k->cap) {
+		k->cap = k->cap ? 2 * k->cap : 16;
+		k->v = realloc(k->v, k->cap * sizeof *k->v);
+	}
+	k->v[k->n++] = c;
+}
+
+static void name_keys_of(NameKeys *k, const char *name)
+{
+	size_t len;
+	char *t;
+	if (name == NULL)
+		return;
+	len = strlen(name);
+	t = malloc(len + 2);
+	name_key_add(k, name, len);
+	memcpy(t, name, len);
+	t[len] = 'x';
+	name_key_add(k, t, len + 1);
+	if (len > 0) {
+		name_key_add(k, name, len - 1);
+		memcpy(t, name, len);
+		t[len - 1] = (char)((unsigned char)name[len - 1] + 1);
+		name_key_add(k, t, strlen_bounded(t, len));
+		t[len - 1] = (char)((unsigned char)name[len - 1] - 1);
+		name_key_add(k, t, strlen_bounded(t, len));
+	}
+	free(t);
+}
+
+static void name_keys_finish(NameKeys *k)
+{
+	name_key_add(k, "", 0);
+	name_key_add(k, "~", 1);
+}
+
+static void name_keys_free(NameKeys *k)
+{
+	for (unsigned i = 0; i < k->n; i++)
+		free(k->v[i]);
+	free(k->v);
+}
+
+typedef struct {
+	int64_t *v;
+	unsigned n, cap;
+} NumKeys;
+
+/* as_unsigned: the key is passed as `unsigned`, else as `int` */
+static void num_key_add(NumKeys *k, int64_t x, int as_unsigned)
+{
+	int64_t c = as_unsigned ? (int64_t)(uint32_t)x : (int64_t)(int32_t)(uint32_t)x;
+	for (unsigned i = 0; i < k->n; i++)
+		if (k->v[i] == c)
+			return;
+	if (k->n == k->cap) {
+		k->cap = k->cap ? 2 * k->cap : 16;
+		k->v = realloc(k->v, k->cap * sizeof *k->v);
+	}
+	k->v[k->n++] = c;
+}
+
+static void num_keys_of(NumKeys *k, int64_t v, int as_unsigned)
+{
+	num_key_add(k, v, as_unsigned);
+	num_key_add(k, v + 1, as_unsigned);
+	num_key_add(k, v - 1, as_unsigned);
+}
+
+static void num_keys_finish(NumKeys *k, int as_unsigned)
+{
+	static const int64_t fixed[] = { 0, 1, -1, 2147483647LL, -2147483648LL, 536870911LL, 4294967295LL };
+	for (unsigned i = 0; i < sizeof fixed / sizeof fixed[0]; i++)
+		num_key_add(k, fixed[i], as_unsigned);
+}
+
+static void message_lookups(const ProtobufCMessageDescriptor *d)
+{
+	NameKeys nk = { NULL, 0, 0 };
+	NumKeys uk = { NULL, 0, 0 };
+	for (unsigned i = 0; i < d->n_fields; i++)
+		name_keys_of(&nk, d->fields[i].name);
+	name_keys_finish(&nk);
+	for (unsigned i = 0; i < nk.n; i++) {
+		const ProtobufCFieldDescriptor *f = protobuf_c_message_descriptor_get_field_by_name(d, nk.v[i]);
+		fputs("ML ", stdout);
+		put_str(nk.v[i]);
+		printf(" %ld\n", f == NULL ? -1L : (long)(f - d->fields));
+	}
+	for (unsigned i = 0; i < d->n_fields; i++)
+		num_keys_of(&uk, (int64_t)d->fields[i].id, 1);
+	num_keys_finish(&uk, 1);
+	for (unsigned i = 0; i < uk.n; i++) {
+		const ProtobufCFieldDescriptor *f = protobuf_c_message_descriptor_get_field(d, (unsigned)uk.v[i]);
+		printf("MK %u %ld\n", (unsigned)uk.v[i], f == NULL ? -1L : (long)(f - d->fields));
+	}
+	name_keys_free(&nk);
+	free(uk.v);
+}
+
+static void enum_lookups(const ProtobufCEnumDescriptor *d)
+{
+	NameKeys nk = { NULL, 0, 0 };
+	NumKeys ik = { NULL, 0, 0 };
+	if (d->values_by_name != NULL)
+		for (unsigned i = 0; i < d->n_value_names; i++)
+			name_keys_of(&nk, d->values_by_name[i].name);
+	name_keys_finish(&nk);
+	for (unsigned i = 0; i < nk.n; i++) {
+		const ProtobufCEnumValue *v = protobuf_c_enum_descriptor_get_value_by_name(d, nk.v[i]);
+		fputs("EL ", stdout);
+		put_str(nk.v[i]);
+		printf(" %ld\n", v == NULL ? -1L : (long)(v - d->values));
+	}
+	for (unsigned i = 0; i < d->n_values; i++)
+		num_keys_of(&ik, (int64_t)d->values[i].value, 0);
+	num_keys_finish(&ik, 0);
+	for (unsigned i = 0; i < ik.n; i++) {
+		const ProtobufCEnumValue *v = protobuf_c_enum_descriptor_get_value(d, (int)ik.v[i]);
+		printf("EK %d %ld\n", (int)ik.v[i], v == NULL ? -1L : (long)(v - d->values));
+	}
+	name_keys_free(&nk);
+	free(ik.v);
+}
+
+static void service_lookups(const ProtobufCServiceDescriptor *d)
+{
+	NameKeys nk = { NULL, 0, 0 };
+	for (unsigned i = 0; i < d->n_methods; i++)
+		name_keys_of(&nk, d->methods[i].name);
+	name_keys_finish(&nk);
+	for (unsigned i = 0; i < nk.n; i++) {
+		const ProtobufCMethodDescriptor *m = protobuf_c_service_descriptor_get_method_by_name(d, nk.v[i]);
+		fputs("SL ", stdout);
+		put_str(nk.v[i]);
+		printf(" %ld\n", m == NULL ? -1L : (long)(m - d->methods));
+	}
+	name_keys_free(&nk);
+}
+
 /* ---------------------------------------------------------------- blocks */
 
 static void dump_message(const ProtobufCMessageDescriptor *d)
@@ -479,6 +662,7 @@ static void dump_message(const ProtobufCMessageDescriptor *d)
 	} else {
 		printf("MI !\nMU !\n");
 	}
+	message_lookups(d);
 	free(fi);
 	free(group_qoff);
 }
@@ -514,6 +698,7 @@ static void dump_enum(const ProtobufCEnumDescriptor *d)
 		for (unsigned i = 0; i <= d->n_value_ranges; i++)
 			printf("ER %d %u\n", d->value_ranges[i].start_value, d->value_ranges[i].orig_index);
 	}
+	enum_lookups(d);
 }
 
 static void dump_service(const ProtobufCServiceDescriptor *d)
@@ -545,6 +730,13 @@ static void dump_service(const ProtobufCServiceDescriptor *d)
 			printf(" %u", d->method_indices_by_name[i]);
 		putchar('\n');
 	}
+	service_lookups(d);
+	/* SS / SI / SX: the generated stubs, <svc>__init and protobuf_c_service_destroy (code generated
+	 * by genloop.py into registry.c) */
+	fflush(stdout);
+	for (unsigned i = 0; i < n_all_svc_tests; i++)
+		if (all_svc_tests[i].desc == d && all_svc_tests[i].run != NULL)
+			all_svc_tests[i].run();
 }
 
 /* ---------------------------------------------------------------- stable sort by name */
